@@ -50,7 +50,7 @@ HasNames(e) == Defs(e) # {} \/ DefsL(e) # {} \/ HasOvr(e)
 RECURSIVE Nullable(_)
 RECURSIVE NullSeq(_, _)
 Nullable(e) == CASE e.op \in {"opt", "star", "void", "cut", "and", "not", "const", "oconst", "oalert", "constbad", "emptyclosure", "eof", "eol", "fail"} -> TRUE
-                 [] e.op = "pat" -> e.min = 0
+                 [] e.op = "pat" -> e.min = 0 /\ (e.cls2 = <<>> \/ e.min2 = 0)
                  [] e.op = "opat" -> e.nul
                  [] e.op = "join" -> ~e.plus \/ Nullable(e.e)      \* s%{e}+ == e {s ~ e}: one empty element is enough, the separator never matters
                  [] e.op = "seq" -> NullSeq(e.es, 1)
